@@ -119,6 +119,9 @@ func (s *Signing) Run(
 	}
 
 	msgChn := make(chan *comm.WrappedMessage)
+	// a retried signing is run again on the same object: release the previous run's subscription
+	// first, Stop only knows the latest one
+	s.Communication.UnSubscribe(s.subscriptionID)
 	s.subscriptionID = s.Communication.Subscribe(s.SessionID(), comm.TssKeySignMsg, msgChn)
 
 	p := pool.New().WithContext(ctx).WithCancelOnError()
